@@ -163,6 +163,8 @@ func TestC41(t *testing.T) {
 	write(t, T+"/root/a", "inside-a")
 	write(t, T+"/root/sub/b", "inside-sub-b")
 	write(t, T+"/root/sub/deep/c", "inside-deep-c")
+	write(t, T+"/root/..hidden", "inside-dotdot-hidden") // a real name that merely starts with ".."
+	write(t, T+"/root/.../d", "inside-three-dots")
 	write(t, T+"/root-evil/secret", "OUTSIDE-secret")
 	write(t, T+"/rootx", "OUTSIDE-rootx")
 	write(t, T+"/x", "OUTSIDE-x")
@@ -207,6 +209,9 @@ func TestC41(t *testing.T) {
 	emit(R, R+"/a", "corpus")
 	emit(R, R+"/sub/../../root-evil/secret", "corpus")
 	emit(R, R+"/sub/../a", "corpus")
+	emit(R, R+"/..hidden", "corpus")
+	emit(R, R+"/.../d", "corpus")
+	emit("root", "root/..hidden", "corpus")
 	emit(R, R, "corpus")
 	emit(R, R+"/", "corpus")
 	emit(R, R+"/..", "corpus")
@@ -247,11 +252,11 @@ func TestC41(t *testing.T) {
 	rootSpell := []string{R, R + "/", R + "/.", T + "//root", R + "/sub/..", "root", "./root", "../" + base + "/root", R + "/sub/deep/../.."}
 	// interesting targets relative to <T>/root
 	known := []string{"a", "sub/b", "sub/deep/c", "link/x", "flink", "../root-evil/secret", "../x", "../rootx", "../other/x",
-		"sub/../../x", "sub/deep/../../../root-evil/secret", "sub", "", "..", "missing", "a/b", "sub/deep/../b", "../root/a", "../root/../x"}
+		"sub/../../x", "sub/deep/../../../root-evil/secret", "sub", "", "..", "missing", "a/b", "..hidden", ".../d", "sub/../..hidden", "../root/..hidden", "sub/deep/../b", "../root/a", "../root/../x"}
 	segs := []string{"a", "sub", "deep", "b", "c", "x", "..", "..", ".", "", "link", "flink", "missing", "root", "root-evil", "secret", "rootx", "other"}
 	tails := []string{"-evil/secret", "x", "/", "/.", "/..", "-evil/../root/a"}
 	noise := []string{".", "", "sub/..", "missing/..", "sub/deep/../..", "."}
-	n := e.Pick(2500, 40000)
+	n := e.Pick(1500, 30000)
 	for i := 0; i < n; i++ {
 		root := roots[e.Rng.Intn(len(roots))]
 		var b strings.Builder
